@@ -92,6 +92,19 @@ Definition cursor_run (i : Z * Z * Z * Z * Z) : list Z * Z :=
   else liquidity_stake_step g dur now last.
 Definition cursor_eqb (a b : list Z * Z) : bool := zl_eqb (fst a) (fst b) && (snd a =? snd b).
 
+(* ---- updateLiquidityRewards with what it issues: status (0 done, 2 panic), (epoch, (znn, qsr)) per issued epoch in the
+   order of the Mint blocks, stored LastEpoch *)
+Definition zpp_eqb (a b : Z * (Z * Z)) : bool := (fst a =? fst b) && zz_eqb11 (snd a) (snd b).
+Definition liq_update_run (i : Z * Z * Z * Z) : Z * list (Z * (Z * Z)) * Z :=
+  let '(g, dur, now, last) := i in
+  match liquidity_issue cursor_fuel g dur now last 0 with
+  | Some (Done (ms, l')) => (0, ms, l')
+  | Some _ => (2, [], last)
+  | None => (-7, [], -7)
+  end.
+Definition liq_update_eqb (a b : Z * list (Z * (Z * Z)) * Z) : bool :=
+  let '(s1, m1, l1) := a in let '(s2, m2, l2) := b in (s1 =? s2) && list_eqb zpp_eqb m1 m2 && (l1 =? l2).
+
 (* ---- CollectReward on a deposit (znn, qsr): status (0 minted, 1 nothing to withdraw), mints, deposit left *)
 Definition collect_run (d : Z * Z) : Z * list (Z * Z) * (Z * Z) :=
   match collect [(7, d)] 7 with
